@@ -120,6 +120,8 @@ func (r *Rand) Chance(num, den int) bool { return r.Intn(den) < num }
 
 func (r *Rand) Pick(xs []string) string { return xs[r.Intn(len(xs))] }
 
+func (r *Rand) PickU64(xs []uint64) uint64 { return xs[r.Intn(len(xs))] }
+
 func (r *Rand) PickByte(s string) byte { return s[r.Intn(len(s))] }
 
 // Str returns a string of n bytes drawn from alphabet.
